@@ -10,6 +10,7 @@ pub mod c09;
 pub mod c10;
 pub mod c13;
 pub mod c14;
+pub mod c15;
 pub mod c16;
 pub mod c17;
 pub mod c18;
@@ -66,6 +67,7 @@ pub fn run(id: &str, ctx: &mut Ctx) -> bool {
         "C10" => c10::run(ctx),
         "C13" => c13::run(ctx),
         "C14" => c14::run(ctx),
+        "C15" => c15::run(ctx),
         "C16" => c16::run(ctx),
         "C17" => c17::run(ctx),
         "C18" => c18::run(ctx),
@@ -113,6 +115,7 @@ pub fn replay_value(id: &str, ctx: &mut Ctx, r: &serde_json::Value) -> bool {
         "C10" => c10::replay(ctx, r),
         "C13" => c13::replay(ctx, r),
         "C14" => c14::replay(ctx, r),
+        "C15" => c15::replay(ctx, r),
         "C16" => c16::replay(ctx, r),
         "C17" => c17::replay(ctx, r),
         "C18" => c18::replay(ctx, r),
